@@ -11,7 +11,7 @@
 From Coq Require Import List Arith Bool NArith.
 From FFSM2 Require Import Model.TaskList Model.BitArray Model.BitStream Model.Plan Model.Ancestors Model.Machine
   Proofs.BitArrayProofs Proofs.TaskListProofs Proofs.TaskListRun Proofs.PlanProofs Proofs.MachineFrame Proofs.MachinePlan Proofs.MachineLife Proofs.GuardProofs Proofs.CycleProofs Proofs.PlanStep
-  Proofs.SerialProofs Proofs.LogProofs Proofs.MachineTop Model.Multi Generated.InitFacts Proofs.ConstructProofs Proofs.LifeMonitor Proofs.ActivationRounds Proofs.IndexSafety Proofs.FeatureProofs Model.Script Proofs.Contract Proofs.Histories Proofs.StatusBits Proofs.Worlds.
+  Proofs.SerialProofs Proofs.LogProofs Proofs.MachineTop Model.Multi Generated.InitFacts Proofs.ConstructProofs Proofs.LifeMonitor Proofs.ActivationRounds Proofs.IndexSafety Proofs.FeatureProofs Model.Script Proofs.Contract Proofs.Histories Proofs.StatusBits Proofs.Worlds Model.Cxx Generated.LeafCode Proofs.LeafTactics Proofs.LeafConsts Proofs.LeafCodeTaskList.
 Import ListNotations.
 
 (* every API history from construction, every behaviour of the callbacks, every n <= 255, capacity, limit, activation
@@ -23,7 +23,7 @@ Theorem C01_every_history :
          wf_oracle P cfg orc ->
          forall (lg : bool) (ops : list (api_op P)),
          ops_ok P cfg orc (construct P cfg orc lg) ops ->
-         let s := run P cfg orc lg ops in
+         let s := Machine.run P cfg orc lg ops in
          SInv P cfg (PIc P cfg) s /\ life_chain P cfg INVALID (active P (co P s)) (tr P s).
 Proof. exact (fun P cfg orc (Hcfg : wf_cfg cfg) (Hwf : wf_oracle P cfg orc) => run_life P cfg orc (PIc P cfg) (PIc_ok P cfg (proj1 (proj2 Hcfg))) Hwf Hcfg). Qed.
 Print Assumptions C01_every_history.
@@ -40,8 +40,8 @@ Theorem C01_monitor_accepts_every_history :
          forall (lg : bool) (ops : list (api_op P)),
          ops_ok P cfg orc (construct P cfg orc lg) ops ->
          exists st : lstate,
-           mon P (c_n cfg) (tr P (run P cfg orc lg ops)) LsOff = Some st /\
-           compatible (c_n cfg) st (active P (co P (run P cfg orc lg ops))).
+           mon P (c_n cfg) (tr P (Machine.run P cfg orc lg ops)) LsOff = Some st /\
+           compatible (c_n cfg) st (active P (co P (Machine.run P cfg orc lg ops))).
 Proof. exact (run_accepted). Qed.
 Print Assumptions C01_monitor_accepts_every_history.
 
@@ -133,9 +133,10 @@ Proof. exact (accepted_enter_enter). Qed.
 Print Assumptions C01_no_two_enters_without_exit.
 
 Theorem C01_views_show_the_entered_state :
-  forall (P : Type) (n : nat) (l2 : list (event P)) (k : nat) (m : method) (v : Machine.view P)
-           (l1 : list (event P)) (st st' : lstate),
-         mon P n (l2 ++ EvCb P (St k) Own m v :: l1) st = Some st' -> is_life m = true -> v_act P v = bits n k.
+  forall (P : Type) (n : nat) (l2 : list (event P)) (k : nat) (m : Ancestors.method)
+           (v : Machine.view P) (l1 : list (event P)) (st st' : lstate),
+         mon P n (l2 ++ EvCb P (St k) Own m v :: l1) st = Some st' ->
+         is_life m = true -> v_act P v = LifeMonitor.bits n k.
 Proof. exact (accepted_life_view). Qed.
 Print Assumptions C01_views_show_the_entered_state.
 
@@ -171,7 +172,8 @@ Theorem C01_trace_only_grows :
          wf_oracle P cfg orc ->
          forall (lg : bool) (pre post : list (api_op P)),
          ops_ok P cfg orc (construct P cfg orc lg) (pre ++ post) ->
-         exists l : list (event P), tr P (run P cfg orc lg (pre ++ post)) = l ++ tr P (run P cfg orc lg pre).
+         exists l : list (event P),
+           tr P (Machine.run P cfg orc lg (pre ++ post)) = l ++ tr P (Machine.run P cfg orc lg pre).
 Proof. exact (trace_monotone). Qed.
 Print Assumptions C01_trace_only_grows.
 
